@@ -44,13 +44,13 @@ Section Suggest.
   Definition below_new (v : V) (nr : option V) : bool :=
     match nr with None => false | Some n => is_lt (cmp v n) end.
 
-  (* the loop computing newReq: versions below the running maximum or below the current version are
-     skipped, then the level check against the current version *)
+  (* the loop computing newReq: versions below the running maximum, and versions not above the current
+     version (equal-comparing respellings included), are skipped; then the level check *)
   Fixpoint pick (l : level) (cur : V) (vs : list V) (nr : option V) : option V :=
     match vs with
     | [] => nr
     | v :: vs' =>
-        if below_new v nr || is_lt (cmp v cur) then pick l cur vs' nr
+        if below_new v nr || negb (is_gt (cmp v cur)) then pick l cur vs' nr
         else if allows l (dif v cur) then pick l cur vs' (Some v) else pick l cur vs' nr
     end.
 
